@@ -59,6 +59,21 @@ Proof.
   destruct (mark_stale _ st) as [st1 k]. simpl in *. split; auto.
 Qed.
 
+Lemma mark_stale_limit need st : limit (fst (mark_stale need st)) = limit st.
+Proof.
+  unfold mark_stale. destruct (ms_loop (listed st) 0 need (gens st) 0) as [[[l bytes] gs] n]. cbv zeta.
+  destruct (Z.ltb bytes need); [|reflexivity].
+  set (st2 := rotate _). assert (limit st2 = limit st) by reflexivity. clearbody st2.
+  destruct (listed st2); simpl; auto.
+Qed.
+
+Lemma clean_begin_bound_limit st : limit (clean_begin st) = limit st.
+Proof.
+  unfold clean_begin. destruct (limit st =? 0)%Z; auto. destruct (acct st <=? limit st)%Z; auto.
+  pose proof (mark_stale_limit (Z.max (acct st / 20) (acct st - limit st)) st).
+  destruct (mark_stale _ st). simpl in *. auto.
+Qed.
+
 Lemma clean_all_acct : forall bk st b c st' b' c',
   clean_all bk st b c = Some (st', b', c') -> acct st' = acct st /\ limit st' = limit st.
 Proof.
